@@ -354,10 +354,13 @@ func (ms *Modules) Process() []error {
 		return errorSort(errs)
 	}
 
-	for _, m := range ms.Modules {
+	// The trees are built here. Which of two mutually dependent definitions
+	// is entered first decides which one a circular dependency is reported
+	// for, so visit the modules in a fixed order.
+	for _, m := range inKeyOrder(ms.Modules) {
 		errs = append(errs, ToEntry(m).GetErrors()...)
 	}
-	for _, m := range ms.SubModules {
+	for _, m := range inKeyOrder(ms.SubModules) {
 		errs = append(errs, ToEntry(m).GetErrors()...)
 	}
 
